@@ -36,7 +36,14 @@ func NewFunc(fn *ssa.Function) *Func {
 	return &Func{Fn: fn, Org: NewOrigins(fn)}
 }
 
-func (f *Func) Term(v ssa.Value) *Term { return f.Org.Of(v) }
+func (f *Func) Term(v ssa.Value) *Term {
+	if fn := valueFn(v); fn != nil && fn != f.Fn {
+		if g := f.ctxFn(fn); g != f {
+			return g.Org.Of(v)
+		}
+	}
+	return f.Org.Of(v)
+}
 
 var errCtorPkgs = map[string]bool{"errors": true, "fmt": true, "cosmossdk.io/errors": true, "google.golang.org/grpc/status": true, "github.com/pkg/errors": true}
 
@@ -142,6 +149,9 @@ func isErrCtor(fn *ssa.Function) bool {
 
 // ExitKindOf classifies the terminator of b.
 func (f *Func) ExitKindOf(b *ssa.BasicBlock) ExitKind {
+	if g := f.ctxFn(b.Parent()); g != f {
+		return g.ExitKindOf(b)
+	}
 	if f.exitKind == nil {
 		f.exitKind = map[*ssa.BasicBlock]ExitKind{}
 	}
@@ -204,6 +214,9 @@ func (f *Func) exitKindOf(b *ssa.BasicBlock) ExitKind {
 
 // CanSucceed reports whether a success (or maybe) exit is reachable from b.
 func (f *Func) CanSucceed(b *ssa.BasicBlock) bool {
+	if g := f.ctxFn(b.Parent()); g != f {
+		return g.CanSucceed(b)
+	}
 	if f.canSucceed == nil {
 		f.canSucceed = map[*ssa.BasicBlock]bool{}
 		// reverse reachability from success/maybe exits
@@ -240,6 +253,10 @@ var guardMemo = map[*ssa.BasicBlock][]Guard{}
 
 // GuardsAt returns the conditions established on every path to b by dominating branches.
 func (f *Func) GuardsAt(b *ssa.BasicBlock) []Guard {
+	if g := f.ctxFn(b.Parent()); g != f {
+		h := HelperOf(f, b.Parent())
+		return append(append([]Guard{}, f.GuardsAt(h.Outer.Block())...), g.GuardsAt(b)...)
+	}
 	if g, ok := guardMemo[b]; ok {
 		return g
 	}
@@ -314,6 +331,10 @@ func reaches(start, target, avoid *ssa.BasicBlock) bool {
 // MustPassOnSuccess reports whether every path from the entry to a success/maybe exit passes
 // through block x (ignoring paths that end in error or panic exits).
 func (f *Func) MustPassOnSuccess(x *ssa.BasicBlock) bool {
+	if g := f.ctxFn(x.Parent()); g != f {
+		h := HelperOf(f, x.Parent())
+		return g.MustPassOnSuccess(x) && f.MustPassOnSuccess(h.Outer.Block())
+	}
 	entry := f.Fn.Blocks[0]
 	if entry == x {
 		return true
@@ -352,6 +373,9 @@ func (f *Func) Calls() []ssa.CallInstruction {
 
 // CalleeName is the canonical name of the callee of a call instruction (static, invoke or dyn).
 func (f *Func) CalleeName(c ssa.CallInstruction) string {
+	if g := f.ctxFn(c.Parent()); g != f {
+		return g.CalleeName(c)
+	}
 	cc := c.Common()
 	if cc.IsInvoke() {
 		t := f.Org.callTerm(cc, maxDepth) // only the name is needed
@@ -371,6 +395,9 @@ func (f *Func) CalleeName(c ssa.CallInstruction) string {
 
 // CallArgs returns receiver+arguments as terms (receiver first for invoke calls, as in Term form).
 func (f *Func) CallArgs(c ssa.CallInstruction) []*Term {
+	if g := f.ctxFn(c.Parent()); g != f {
+		return g.CallArgs(c)
+	}
 	cc := c.Common()
 	var vs []ssa.Value
 	if cc.IsInvoke() {
